@@ -182,7 +182,7 @@ func doubleHashAtRawLineStart(payload string, sizes []int) bool {
 	return false
 }
 
-var listedMalformed = map[string]bool{"short-data": true, "oversize": true, "size-plus-3": true, "swallow": true, "negative": true, "nonnumeric": true, "no-terminator": true, "truncate": true}
+var listedMalformed = map[string]bool{"short-data": true, "oversize": true, "oversize-max": true, "oversize-10digits": true, "size-plus-3": true, "swallow": true, "negative": true, "nonnumeric": true, "no-terminator": true, "truncate": true}
 
 func genC02(seed uint64, run int, tier string) Scenario {
 	rs := kernel.RunSeed(seed, "C02", run)
@@ -212,7 +212,7 @@ func genC02(seed uint64, run int, tier string) Scenario {
 		if ver == "1.1" {
 			rep.Chunks = genChunks(r, payload)
 			if faulty && r.IntN(2) == 0 {
-				rep.Malform = pick(r, "short-data", "oversize", "size-plus-3", "swallow", "size-smaller", "negative", "nonnumeric", "toolong", "missing-lf", "missing-hash", "empty-size")
+				rep.Malform = pick(r, "short-data", "oversize", "oversize-max", "oversize-10digits", "size-plus-3", "swallow", "size-smaller", "negative", "nonnumeric", "toolong", "missing-lf", "missing-hash", "empty-size")
 				ref.Malform = rep.Malform
 				ref.MustFail = listedMalformed[rep.Malform]
 			}
@@ -254,7 +254,7 @@ func genC02(seed uint64, run int, tier string) Scenario {
 			f.Raw = good
 			switch r.IntN(7) {
 			case 0:
-				f.Kind = pick(r, "short-data", "oversize", "size-plus-3", "swallow", "size-smaller", "negative", "nonnumeric", "toolong", "missing-lf", "missing-hash", "empty-size")
+				f.Kind = pick(r, "short-data", "oversize", "oversize-max", "oversize-10digits", "size-plus-3", "swallow", "size-smaller", "negative", "nonnumeric", "toolong", "missing-lf", "missing-hash", "empty-size")
 				f.Raw = strings.TrimSuffix(peer.Malform(f.Kind, payload, sizes), "\n")
 			case 1:
 				f.Kind = "no-terminator"
